@@ -100,22 +100,43 @@ def call_main(argv):
 
 def run_loop_case(cid, c, seed, tmproot):
     g = Gamma("%s|%s" % (seed, cid))
+    mode = c.get("mode", "files")
     d = tempfile.mkdtemp(prefix="cli-", dir=tmproot)
     try:
-        paths = []
-        for i, f in enumerate(c["files"]):
-            p = os.path.join(d, "file%02d_%s.mos.xml" % (i, f["kind"]))
-            if f["kind"] == "dir":
-                os.mkdir(p)
-            elif f["kind"] != "missing":
-                with open(p, "w", encoding="utf-8") as fh:
-                    fh.write(file_text(f, g))
-            paths.append(p)
-        rc, out, err = call_main([c["cmd"], "-f"] + paths)
+        names = []
+        if mode == "files":
+            for i, f in enumerate(c["files"]):
+                p = os.path.join(d, "file%02d_%s.mos.xml" % (i, f["kind"]))
+                if f["kind"] == "dir":
+                    os.mkdir(p)
+                elif f["kind"] != "missing":
+                    with open(p, "w", encoding="utf-8") as fh:
+                        fh.write(file_text(f, g))
+                names.append(p)
+            argv = [c["cmd"], "-f"] + names
+        else:
+            # the same documents as objects of an in-memory bucket (keys in argument order), among unrelated keys
+            sfx = ".mos.xml" if mode != "bucket_prefix_suffix" else ".xml"
+            bucket = {"zzz/unrelated.mos.xml": b"<mos/>", "pre/notes.txt": b"not a mos file"}
+            for i, f in enumerate(c["files"]):
+                key = "pre/file%02d_%s%s" % (i, f["kind"], sfx)
+                bucket[key] = file_text(f, g).encode("utf-8")
+                names.append(key)
+            collection.install_fake_s3(collection.FakeS3({"bkt": bucket}, page_size=1))
+            argv = [c["cmd"]]
+            if mode != "none":
+                argv += ["-b", "bkt"]
+            if mode in ("bucket_prefix", "bucket_prefix_suffix"):
+                argv += ["-p", "pre/"]
+            if mode == "bucket_prefix_suffix":
+                argv += ["-s", ".xml"]
+            if mode == "bucket_key":
+                argv += ["-k", names[0]]
+        rc, out, err = call_main(argv)
         seen = []
         olines, elines = out.splitlines(), err.splitlines()
         firsts = []
-        for p, f in zip(paths, c["files"]):
+        for p, f in zip(names, c["files"]):
             pre = p + ": "
             o = [ln[len(pre):] for ln in olines if ln.startswith(pre)]
             e = [ln[len(pre):] for ln in elines if ln.startswith(pre)]
@@ -124,8 +145,9 @@ def run_loop_case(cid, c, seed, tmproot):
                 idx = [k for k, ln in enumerate(olines) if ln.startswith(pre)]
                 firsts.append(idx[0] if idx else -1)
         order_ok = all(a >= 0 for a in firsts) and firsts == sorted(firsts)
-        return {"id": cid, "cmd": c["cmd"], "files": c["files"], "seen": seen, "order_ok": order_ok,
+        return {"id": cid, "cmd": c["cmd"], "mode": mode, "files": c["files"], "seen": seen, "order_ok": order_ok,
                 "rc": rc if isinstance(rc, int) else 99, "aborted": rc == 2 and "mosromgr error" in err,
+                "stderr_nonempty": any(ln.strip() for ln in elines),
                 "stderr_tail": err[-300:], "stdout_head": out[:300].replace(d, "<tmp>")}
     finally:
         shutil.rmtree(d, ignore_errors=True)
@@ -154,7 +176,25 @@ def run_merge_case(cid, c, want_rc, seed, tmproot):
                 want_text = str(mc)
         except Exception:  # noqa: BLE001
             want_text = None
-        argv = ["merge", "-f"] + paths + (["-i"] if c["allow"] else []) + (["-n"] if c["nonstrict"] else [])
+        mode = c.get("mode", "files")
+        if mode == "files":
+            argv = ["merge", "-f"] + paths
+        else:
+            sfx = ".mos.xml" if mode != "bucket_prefix_suffix" else ".xml"
+            pre = "" if mode == "bucket_only" else "pre/"
+            bucket = {}
+            if mode != "bucket_only":
+                bucket["zzz/unrelated%s" % sfx] = b"<mos><messageID>1</messageID><roCreate><roID>X</roID></roCreate></mos>"
+            for n, i in enumerate(order):
+                bucket["%sin%02d%s" % (pre, n, sfx)] = texts[i].encode("utf-8")
+            bucket["%snotes.txt" % pre] = b"not a mos file"
+            collection.install_fake_s3(collection.FakeS3({"bkt": bucket}, page_size=2))
+            argv = ["merge"] + ([] if mode == "none" else ["-b", "bkt"])
+            if mode in ("bucket_prefix", "bucket_prefix_suffix"):
+                argv += ["-p", "pre/"]
+            if mode == "bucket_prefix_suffix":
+                argv += ["-s", ".xml"]
+        argv += (["-i"] if c["allow"] else []) + (["-n"] if c["nonstrict"] else [])
         outpath = os.path.join(d, "merged.xml")
         if c["outfile"]:
             argv += ["-o", outpath]
@@ -164,7 +204,7 @@ def run_merge_case(cid, c, want_rc, seed, tmproot):
             wrote = content != ""
         else:
             content = out[:-1] if out.endswith("\n") else out
-            wrote = content.strip() != ""
+            wrote = content.lstrip().startswith(("<mos", "<?xml"))      # help / progress text is not the merged document
         return {"id": cid, "cmd": "merge", "c": c, "rc": rc if isinstance(rc, int) else 99, "wrote": wrote,
                 "same_as_lib": want_text is not None and content == want_text,
                 "stderr_nonempty": any(ln.strip() for ln in err.splitlines()), "spec_rc": want_rc,
@@ -206,6 +246,10 @@ def run(report, tier, seed):
     strip = lambda e: {k: v for k, v in e.items() if k not in ("stderr_tail", "stdout_head", "spec_rc")}
     loop_ev = [strip(e) for e in events if e["cmd"] != "merge"]
     merge_ev = [strip(e) for e in events if e["cmd"] == "merge"]
+    cov_modes = {}
+    for e in events:
+        m = e.get("mode") or e["c"].get("mode")
+        cov_modes[m] = cov_modes.get(m, 0) + 1
     bad1, j1 = pipeline.judge(loop_ev, "cli-loop-" + report.prop, module="Trace_Cli")
     bad2, j2 = pipeline.judge(merge_ev, "cli-merge-" + report.prop, module="Trace_Cli")
     byid = {e["id"]: e for e in events}
@@ -215,7 +259,7 @@ def run(report, tier, seed):
     st = res["stats"]
     cov = {"states": st.get("distinct", 0) + j1["states"] + j2["states"], "transitions": st.get("generated", 0),
            "traces_validated_against_impl": j1["judged"] + j2["judged"], "exhaustive": True,
-           "loop_runs": len(loop_ev), "merge_runs": len(merge_ev),
+           "loop_runs": len(loop_ev), "merge_runs": len(merge_ev), "runs_per_source_mode": cov_modes,
            "samples": [e for e in random.Random(seed).sample(events, 2)],
            "tlc": [{"cmd": st["cmd"], "wall_s": st["wall_s"], "theorems": ["Inv_InOrder", "Live_AllProcessed", "ASSUME MergeRc in {0,2}"]}]}
     return cov
